@@ -84,6 +84,49 @@ def run_ticks(facts, out, eff=None):
     return eff
 
 
+def run_line_buffers(facts, out, eff=None):
+    """C05 (line reading): the per-line buffers of the reader are killed before they are refilled.
+    * the String the line is decoded into: from every method taking `&mut Decoder`, cleared before
+      anything is appended to it (otherwise a line is handed on with the previous decode in front);
+    * the byte buffer: from the method that reads up to the delimiter, cleared before the read."""
+    eff = eff or Effects(facts)
+    kbu = KBU(eff, writes_only=True)
+    adt = 'reader::decoder::Decoder'
+    a = facts.adts.get(adt)
+    out.anchor('LB', 'struct Decoder', a is not None)
+    if a is None:
+        return eff
+    sfields = [f['name'] for f in a['variants'][0]['fields'] if f['ty']['s'] == 'std::string::String']
+    bfields = [f['name'] for f in a['variants'][0]['fields'] if f['ty']['s'] == 'std::vec::Vec<u8>']
+    out.anchor('LB', 'decode buffer (String) and read buffer (Vec<u8>) of Decoder', len(sfields) == 1 and len(bfields) == 1,
+               '%s %s' % (sfields, bfields))
+    n = 0
+    for inst in facts.instances:
+        b = facts.bodies.get(inst['def'])
+        if b is None or b.argc < 1 or '{closure' in inst['def']:
+            continue
+        ty = b.locals[1]
+        if not (ty.get('to_adt') == adt and ty.get('ref') == 'mut'):
+            continue
+        reads_delim = any((callee_of(t) or {}).get('name') == 'read_until' for bb, t in b.calls())
+        for f, applies in [(x, True) for x in sfields] + [(x, reads_delim) for x in bfields]:
+            if not applies:
+                continue
+            n += 1
+            viols, _exit = kbu.flow(inst['id'], (('p', 1), (f,)))
+            if viols:
+                v = viols[0]
+                via = ' via ' + ' -> '.join(v.get('via', [])) if v.get('via') else ''
+                out.add('LB', inst['def'], 'buffer:' + f, v['loc'], False,
+                        ('line buffer `%s` may be appended to / read before it is cleared: %s in %s%s; the line handed to '
+                         'the parsers would contain what an earlier read or decode left there') % (f, v['what'], v['fn'], via),
+                        {'violations': viols[:5]}, ordinal=False)
+            else:
+                out.add('LB', inst['def'], 'buffer:' + f, '%s:%d' % (b.file, b.line), True, '', ordinal=False)
+    out.anchor('LB', 'methods taking &mut Decoder', n >= 2, str(n))
+    return eff
+
+
 # ----------------------------------------------------------------------------- CI
 
 def run_cache(facts, out):
@@ -119,27 +162,34 @@ def run_cache(facts, out):
             if not c or c['path'] not in ctor_names:
                 continue
             args = []
+            hops = []
             for a in t['args'][:3]:
                 pl = op_place(a)
                 src = None
                 if pl is not None:
-                    src = _trace_field(b, pl, owner)
+                    src = _trace_field(b, pl, owner, via=hops)
                 args.append(src)
             if any(args):
                 for s in args:
                     if s:
                         key_fields.add(s)
-                fills.append((b, bb, t, args))
+                fills.append((b, bb, t, args, [h for h in hops if h not in NEUTRAL_HOPS]))
     out.anchor('CI', 'key fields passed to Curve::new', len(key_fields) >= 3, str(sorted(key_fields)))
     # sibling agreement: every constructor call passes (mode, control_points, expected_dist) in order
     exp = None
-    for b, bb, t, args in fills:
+    for b, bb, t, args, changed in fills:
         if exp is None:
             exp = args
         ok = args == exp and all(args)
         out.add('CI', b.path, 'curve-args', loc_of(t['sp']), ok,
                 '' if ok else 'curve constructor is called with %s; the sibling accessors pass %s' % (args, exp),
                 {'args': args})
+        # the cached curve and the *_with_bufs siblings must be computed from the key fields themselves
+        ok2 = not changed
+        out.add('CI', b.path, 'curve-args-unmodified', loc_of(t['sp']), ok2,
+                '' if ok2 else ('an argument of the curve constructor is a key field passed through `%s`: this accessor '
+                                'computes a different curve than its siblings / the cache for the same path') % ', '.join(changed),
+                {'hops': changed})
     # every write / &mut of a key field in any function must be dominated by a cache kill
     n = 0
     for p, b in sorted(facts.bodies.items()):
@@ -201,9 +251,13 @@ def run_cache(facts, out):
                             '' if ok else 'cache is filled with a value that is not Curve::new of the path\'s own key fields')
 
 
-def _trace_field(body, pl, owner, depth=0):
+NEUTRAL_HOPS = {'deref', 'as_slice', 'as_ref', 'borrow', 'clone', 'as_deref', 'copied', 'cloned', 'deref_mut',
+                'as_mut_slice', 'as_mut', 'borrow_mut', 'to_owned', 'into', 'from'}
+
+
+def _trace_field(body, pl, owner, depth=0, via=None):
     """name of the `owner` field this operand place derives from (through temporaries, reborrows,
-    deref/as_slice style calls and closure captures)"""
+    deref/as_slice style calls and closure captures); `via` collects the callees passed through"""
     f = _owner_field(body, pl, owner)
     if f:
         return f
@@ -219,17 +273,20 @@ def _trace_field(body, pl, owner, depth=0):
     if kind == 'assign':
         rv = s['rv']
         if rv['k'] in ('ref', 'rawptr'):
-            return _trace_field(body, rv['pl'], owner, depth + 1)
+            return _trace_field(body, rv['pl'], owner, depth + 1, via)
         if rv['k'] in ('use', 'cast'):
             p2 = op_place(rv['op'])
             if p2 is None:
                 return None
-            return _trace_field(body, p2, owner, depth + 1)
+            return _trace_field(body, p2, owner, depth + 1, via)
         return None
     if s['args']:
         p2 = op_place(s['args'][0])
         if p2 is not None:
-            return _trace_field(body, p2, owner, depth + 1)
+            if via is not None:
+                c = callee_of(s)
+                via.append(c['name'] if c else '?')
+            return _trace_field(body, p2, owner, depth + 1, via)
     return None
 
 
